@@ -7,6 +7,8 @@ set_option linter.unusedVariables false
 namespace Fsic.Container
 open Fsic
 
+variable {cfg : Cfg}
+
 /-! ### Python slices (positive step) -/
 
 theorem clampPos_le (n : Nat) (x : Int) : clampPos n x ≤ n := by
